@@ -39,6 +39,12 @@ def check_values_affine(ctx, clsname: str, adaptive: bool):
                   inst + ' is affine in the averages: degree 1, coefficients free of the averages',
                   f"degree in averages {deg}; denominator free of averages: {den_free}; averages inside opaque terms: {[sym.show_atom(a)[:80] for a in nested]}",
                   sf.loc(), st.rfa.qualname, f"affine:{sym.show(sf.lo)}")
+        if not adaptive:
+            # a sample written (or skipped) depending on the averages is a piecewise, not a linear, map of them
+            cond = [str(g)[:100] for g in sf.guard if any(sym.ATOMS.head(a_) == 'el' and _is_y(sym.ATOMS.args(a_)[0], st)
+                                                          for r_ in g.rats() for a_ in sym.all_atoms(r_))]
+            ctx.check(not cond, 'C07.1', inst + ' is written whatever the averages are (no value-dependent branch in a non-adaptive strategy)',
+                      f"written only when {cond[:2]}", sf.loc(), st.rfa.qualname, f"uncond:{sym.show(sf.lo)}")
         # time axis: x -> c*x + d leaves the value unchanged (homogeneity + vanishing total derivative; no expansion)
         xs = set(el_atoms(sf.value, lambda r: _is_x(r, st)))
         okx, why = sym.affine_invariant(sf.value, lambda a: sym.ATOMS.head(a) == 'el' and _is_x(sym.ATOMS.args(a)[0], st))
@@ -260,7 +266,8 @@ def check_grid_equivariance(ctx):
 
 def run(ctx):
     ctx.rule('C07.1', 'every stored sample is affine in the averages with coefficients free of the averages (degree 1, denominator free); with C05.3 '
-                      '(unit weight sum) the non-adaptive strategies commute with y -> a*y+b; the fits commute with it')
+                      '(unit weight sum) the non-adaptive strategies commute with y -> a*y+b; the fits commute with it; a non-adaptive strategy writes every sample '
+                      'unconditionally (no branch on the averages)')
     ctx.rule('C07.2', 'every stored sample is invariant under x -> c*x+d applied to the whole grid; indices and range bounds contain no data values; '
                       'the fits are invariant under an affine map of x, x_0, x_1; the grid extension is affine-equivariant')
     ctx.rule('C07.4', 'locality: interval k reads averages and window-table entries at offsets -1, 0, +1 only, and nothing loop-carried '
